@@ -142,9 +142,18 @@ def run_case(ctx, i, rng):
             if missing:
                 late = ((r1.get('monitors') or {}).get('ledger') or {}).get(
                     'late_polled_outputs_on_removed_tasks') or []
+                refused = [[x, None] for x in ((r1.get('monitors') or {}).get(
+                    'ledger') or {}).get('respawn_refused') or []]
                 if late and where == 'mid-run' and all(
                         child_of_late(gt, m, late) for m in missing):
                     where = 'poll-result-after-task-removed'
+                elif refused and where == 'mid-run' and all(
+                        m.rsplit('/', 1)[0] in {x for x, _ in refused}
+                        or child_of_late(gt, m, refused) for m in missing):
+                    # killed between the early commit of the new task_states
+                    # row and the pool-table write: the restart finds history
+                    # without outputs and takes the task for a suicided one
+                    where = 'respawn-refused-states-row-without-pool-row'
                 ctx.violation(
                     f'C20:work-lost:{where}',
                     f'after a kill at {kind} {at} and restart, jobs '
